@@ -1,0 +1,16 @@
+//go:build verif && amd64 && go1.17 && !go1.27
+// +build verif,amd64,go1.17,!go1.27
+
+package ast
+
+// VerifQuoteString exposes the portable quoteString (ast/encode.go) to the verification harness.
+func VerifQuoteString(buf []byte, s string) []byte {
+	quoteString(&buf, s)
+	return buf
+}
+
+// VerifQuote exposes ast.quote (the routine Node encoding uses on this platform).
+func VerifQuote(buf []byte, s string) []byte {
+	quote(&buf, s)
+	return buf
+}
